@@ -120,6 +120,11 @@ THEOREMS = [
     ("clear_page_target_eq",
      "forall (ops : list Hosts.op) (c : collection) (name : bytes), build ops = Ok c -> "
      "omap hid (clear_target V1 c name) = Ok (clear_reference ops name)"),
+    ("wire_concurrent_clients",
+     "forall (ops : list op) (m : list (bool * wreq)) (st st' : nat -> hstate), "
+     "(forall i, wire_touches ops (mine m) i = true -> wire_touches ops (others m) i = false) -> "
+     "(forall i, wire_touches ops (mine m) i = true -> st i = st' i) -> "
+     "tagged_replies m (wire_spec ops st (map snd m)) = wire_spec ops st' (mine m)"),
     ("absent_host_refuted",
      "forall auth_ok : bytes -> bool, exists ops c r, build ops = Ok c /\\ "
      "wire_history auth_ok snapshot c (fun _ => hstate0) [r] = [Ok WClosed] /\\ "
@@ -341,6 +346,35 @@ def random_wire_case(rng, kind, n=None):
     return wire_case(kind, hosts, reqs)
 
 
+def wire2_case(rng, kind):
+    """concurrent clients, each with its own host (identical paths): every schedule gives every client what it would get alone"""
+    k = rng.randint(2, 4)
+    names = [b"a.test", b"b.test", b"c.test", b"d.test"][:k]
+    hosts = [(False, n, [b"www." + n] if rng.random() < 0.5 else [], 1 if i > 0 and rng.random() < 0.25 else 0) for i, n in enumerate(names)]
+    p0 = rng.choice(PATHS[:3])
+    clients = []
+    for i in range(rng.randint(2, k)):
+        mine = [names[i]] + list(hosts[i][2])
+        reqs = []
+        for _ in range(rng.randint(5, 10)):
+            tr = rng.choice([PLAIN, PLAIN, TLS1, H2])
+            h = rng.choice(mine)
+            path = p0 if rng.random() < 0.7 else rng.choice(PATHS)
+            method = rng.choice([b"GET"] * 6 + [b"HEAD", b"POST"]) if path.startswith(b"/h") else b"GET"
+            flags = (F_GZIP if rng.random() < 0.3 else 0) | (F_IMS_FUTURE if path.startswith(b"/h") and rng.random() < 0.1 else 0)
+            if rng.random() < 0.1:
+                h = b"nobody.test"                          # 409: no host is touched
+                tr = PLAIN
+            if tr == PLAIN:
+                reqs.append(wreq(PLAIN, None, False, method, [h if rng.random() < 0.85 else h + b"."], None, path, flags))
+            elif tr == TLS1:
+                reqs.append(wreq(TLS1, rng.choice(mine), False, method, [rng.choice(names)], None, path, flags))   # the SNI decides
+            else:
+                reqs.append(wreq(H2, rng.choice(mine), False, method, [], rng.choice(names), path, flags))
+        clients.append(xlist(reqs))
+    return Case("hosts.wire2", xl(x_whosts(hosts), xlist(clients)), "hosts.wire2_spec", {"kind": kind}, "dev")
+
+
 def wire_corpus():
     ab = [(False, b"a.test", [b"www.a.test"]), (False, b"b.test", [])]
     abd = [(False, b"a.test", [b"www.a.test"]), (True, b"b.test", [])]
@@ -501,6 +535,8 @@ def generate(rng, tier):
     cases += wire_corpus()
     for _ in range(nconn):
         cases.append(random_wire_case(rng, "history"))
+    for _ in range(nconn // 3):
+        cases.append(wire2_case(rng, "concurrent-clients"))
     # ---- (c) multi-host collections over the fixture pipeline: requests, clear_page, clear_response_caches
     cases += pipe_corpus()
     for _ in range(npipe):
@@ -520,7 +556,7 @@ R409 = ("L", [("N", 0), ("L", [("N", 409)])])
 
 
 def spec_ok(c, i, s):
-    if c.comp == "hosts.pipe":
+    if c.comp in ("hosts.pipe", "hosts.wire2"):
         return i == s
     if c.comp == "hosts.wire":
         xi, xs = xparse(i), xparse(s)
